@@ -59,7 +59,25 @@ Definition vapply (v : emap) (ps : list publish) : emap :=
   fold_left (fun v p => aset v (fst p) (snd p)) ps v.
 Definition view (ps : list publish) (f : file) : list err := vget (vapply [] ps) f.
 
-Record dstate := { saved : emap; live : emap }.
+(* file sets as strictly increasing lists (canonical: equal sets are equal lists) *)
+Definition fmem (f : file) (l : list file) : bool := existsb (N.eqb f) l.
+Fixpoint fadd (f : file) (l : list file) : list file :=
+  match l with
+  | [] => [f]
+  | x :: r => if f <? x then f :: l else if f =? x then l else x :: fadd f r
+  end.
+Fixpoint frem (f : file) (l : list file) : list file :=
+  match l with
+  | [] => []
+  | x :: r => if f =? x then frem f r else x :: frem f r
+  end.
+
+(* clean = LspServer.fileChangeCleanMap (added by the repair C08-unhidden): the files whose unsaved buffer has no syntax
+   error. The model keeps the set under every flag value; only the repaired pushAllDiagnosticsAgain reads it. *)
+Record dstate := { saved : emap; live : emap; clean : list file }.
+Definition set_clean (d : dstate) (c : list file) : dstate := {| saved := saved d; live := live d; clean := c |}.
+Definition mark_clean (d : dstate) (f : file) : dstate := set_clean d (fadd f (clean d)).
+Definition unmark_clean (d : dstate) (f : file) : dstate := set_clean d (frem f (clean d)).
 
 (* ClearOneFileDiagnostic *)
 Definition clear_one (f : file) : list publish := [(f, [])].
@@ -77,13 +95,13 @@ Definition push_file_diag (d : dstate) (f : file) (ignore_syntax : bool) : list 
 
 (* InsertChangeFileErr *)
 Definition insert_change (d : dstate) (f : file) (l : list err) : dstate * list publish :=
-  let d' := {| saved := saved d; live := aset (live d) f l |} in
+  let d' := {| saved := saved d; live := aset (live d) f l; clean := frem f (clean d) |} in
   (d', push_file_change d' f).
 
 (* ClearChangeFileErr *)
 Definition clear_change (d : dstate) (f : file) : dstate * list publish :=
   if ahas (live d) f then
-    let d' := {| saved := saved d; live := adel (live d) f |} in
+    let d' := {| saved := saved d; live := adel (live d) f; clean := clean d |} in
     (d', clear_one f ++ push_file_diag d' f true)
   else (d, []).
 
@@ -93,7 +111,7 @@ Definition clear_syntax (d : dstate) (f : file) : list publish :=
 
 (* SaveOneFilePushAgain *)
 Definition save_push_again (d : dstate) (f : file) : dstate * list publish :=
-  let d' := {| saved := saved d; live := adel (live d) f |} in
+  let d' := {| saved := saved d; live := adel (live d) f; clean := frem f (clean d) |} in
   (d', if ahas (saved d') f then push_file_diag d' f false else clear_one f).
 
 (* pushAllChangeFileDiagnosticErr (Go maps have unique keys: iterate over the keys, read through the lookup) *)
@@ -101,9 +119,9 @@ Definition push_all_change (d : dstate) : list publish :=
   flat_map (fun k => match aget (live d) k with Some l => clear_one k ++ [(k, l)] | None => [] end) (akeys (live d)).
 
 (* pushAllDiagnosticsAgain: diff old/new saved maps, clear vanished files, push new or changed lists.
-   The live map is consulted only when the NEW map is empty (finding 12a). [fix12a] = proposed repair:
-   re-push the live entries after every diff. *)
-Definition push_all_again (fix12a : bool) (d : dstate) (new : emap) : dstate * list publish :=
+   The live map is consulted only when the NEW map is empty (finding 12a). [fix12a] = repair: re-push the live entries
+   after every diff. [fixun] = repair C08-unhidden: the files with a clean unsaved buffer get ClearFileSyntaxErr again. *)
+Definition push_all_again (fix12a fixun : bool) (d : dstate) (new : emap) : dstate * list publish :=
   let clears := flat_map (fun k => if ahas new k then [] else clear_one k) (akeys (saved d)) in
   let pushes := flat_map (fun k => match aget new k with
                                    | None => []
@@ -112,12 +130,13 @@ Definition push_all_again (fix12a : bool) (d : dstate) (new : emap) : dstate * l
                                                | Some old => if errs_eqb old l then [] else [(k, l)]
                                                end
                                    end) (akeys new) in
-  let d' := {| saved := new; live := live d |} in
-  (d', clears ++ pushes ++ (if is_nil new || fix12a then push_all_change d' else [])).
+  let d' := {| saved := new; live := live d; clean := clean d |} in
+  (d', clears ++ pushes ++ (if is_nil new || fix12a then push_all_change d' else []) ++
+       (if fixun then flat_map (clear_syntax d') (clean d) else [])).
 
 (* GetAllDiagnostics (after `initialized`): push every entry of the saved map *)
 Definition push_all_init (e : emap) : list publish :=
   flat_map (fun k => match aget e k with Some l => [(k, l)] | None => [] end) (akeys e).
 
 (* LspServer.RemoveFile *)
-Definition remove_saved (d : dstate) (f : file) : dstate := {| saved := adel (saved d) f; live := live d |}.
+Definition remove_saved (d : dstate) (f : file) : dstate := {| saved := adel (saved d) f; live := live d; clean := clean d |}.
